@@ -278,14 +278,14 @@ example : ¬ RosterItem.Canon [.str [], .str [], .opt none, .str [], .flag false
     .list [.str "a".toList, .str "a".toList], .absent] := by decide
 /-- IQ envelope: the payload is an uninterpreted tree in the REST; canonical = an element no typed field claims, in the normal form
 `QXmppElement` writes (`normE`) -/
-example : Iq.WF ∧ Iq.Canon [.str "i1".toList, .str [], .str "a@b/<&>".toList, .nat 2,
+example : Iq.WF ∧ Iq.Canon [.str "de".toList, .str "i1".toList, .str [], .str "a@b/<&>".toList, .nat 2,
     .list [.node (.elem "query".toList [("xmlns".toList, "urn:verif:q".toList), ("a".toList, "<\"&".toList)] [.text "t".toList, .elem "item".toList [] []])],
     .record [.str [], .opt none, .opt none, .record [.opt none, .str []], .record [.str []]]] := by decide +kernel
 /-- …an `<error/>` element is claimed by the error field, so it is not a canonical member of the rest; nor is a tree that
 `QXmppElement` would rewrite (an attribute with an empty value) -/
-example : ¬ Iq.Canon [.str [], .str [], .str [], .nat 1, .list [.node (.elem "error".toList [] [])],
+example : ¬ Iq.Canon [.str [], .str [], .str [], .str [], .nat 1, .list [.node (.elem "error".toList [] [])],
     .record [.str [], .opt none, .opt none, .record [.opt none, .str []], .record [.str []]]] := by decide +kernel
-example : ¬ Iq.Canon [.str [], .str [], .str [], .nat 1, .list [.node (.elem "q".toList [("a".toList, [])] [])],
+example : ¬ Iq.Canon [.str [], .str [], .str [], .str [], .nat 1, .list [.node (.elem "q".toList [("a".toList, [])] [])],
     .record [.str [], .opt none, .opt none, .record [.opt none, .str []], .record [.str []]]] := by decide +kernel
 /-- presence: signed priority, a conjunctive guard (capabilities need hash, node AND ver), addresses with mandatory jid and type -/
 example : FTy.canon (.sint 31 true) (.int true 128) = true ∧ FTy.canon (.sint 31 true) (.int true 0) = false := by decide
